@@ -19,6 +19,7 @@
 
 use crate::errors::{Error, Result};
 use erltf::OwnedTerm;
+use erltf::types::BigInt;
 use std::convert::TryFrom;
 use std::mem;
 
@@ -330,6 +331,49 @@ pub enum ControlMessage {
     },
 }
 
+/// Reads an unlink id: a non-negative integer below 2^64. Ids above the 32-bit integer range
+/// arrive from the wire as big integers.
+fn unlink_id_from_term(term: &OwnedTerm, what: &str) -> Result<u64> {
+    match term {
+        OwnedTerm::Integer(i) if *i >= 0 => Ok(*i as u64),
+        OwnedTerm::Integer(i) => Err(Error::InvalidControlMessage(format!(
+            "{} id must be non-negative: {}",
+            what, i
+        ))),
+        OwnedTerm::BigInt(big) => {
+            let digits = &big.digits;
+            let significant = digits.iter().rposition(|&d| d != 0).map_or(0, |p| p + 1);
+            if big.sign.is_negative() && significant > 0 {
+                return Err(Error::InvalidControlMessage(format!(
+                    "{} id must be non-negative",
+                    what
+                )));
+            }
+            if significant > 8 {
+                return Err(Error::InvalidControlMessage(format!(
+                    "{} id does not fit in 64 bits",
+                    what
+                )));
+            }
+            let mut bytes = [0u8; 8];
+            bytes[..significant].copy_from_slice(&digits[..significant]);
+            Ok(u64::from_le_bytes(bytes))
+        }
+        _ => Err(Error::InvalidControlMessage(format!(
+            "{} id must be an integer",
+            what
+        ))),
+    }
+}
+
+/// Writes an unlink id as the integer it is (ids above i64::MAX need a big integer).
+fn unlink_id_to_term(id: u64) -> OwnedTerm {
+    match i64::try_from(id) {
+        Ok(i) => OwnedTerm::Integer(i),
+        Err(_) => OwnedTerm::BigInt(BigInt::new(false, id.to_le_bytes().to_vec())),
+    }
+}
+
 impl ControlMessage {
     /// Parse a control message from an Erlang term (tuple)
     pub fn from_term(term: &OwnedTerm) -> Result<Self> {
@@ -376,38 +420,20 @@ impl ControlMessage {
             }),
 
             Some(ControlMessageType::UnlinkId) if elements.len() == 4 => {
-                let id_raw = elements[1].as_integer().ok_or_else(|| {
-                    Error::InvalidControlMessage("UNLINK_ID id must be an integer".to_string())
-                })?;
-
-                if id_raw < 0 {
-                    return Err(Error::InvalidControlMessage(format!(
-                        "UNLINK_ID id must be non-negative: {}",
-                        id_raw
-                    )));
-                }
+                let id = unlink_id_from_term(&elements[1], "UNLINK_ID")?;
 
                 Ok(ControlMessage::UnlinkId {
-                    id: id_raw as u64,
+                    id,
                     from_pid: elements[2].clone(),
                     to_pid: elements[3].clone(),
                 })
             }
 
             Some(ControlMessageType::UnlinkIdAck) if elements.len() == 4 => {
-                let id_raw = elements[1].as_integer().ok_or_else(|| {
-                    Error::InvalidControlMessage("UNLINK_ID_ACK id must be an integer".to_string())
-                })?;
-
-                if id_raw < 0 {
-                    return Err(Error::InvalidControlMessage(format!(
-                        "UNLINK_ID_ACK id must be non-negative: {}",
-                        id_raw
-                    )));
-                }
+                let id = unlink_id_from_term(&elements[1], "UNLINK_ID_ACK")?;
 
                 Ok(ControlMessage::UnlinkIdAck {
-                    id: id_raw as u64,
+                    id,
                     from_pid: elements[2].clone(),
                     to_pid: elements[3].clone(),
                 })
@@ -648,7 +674,7 @@ impl ControlMessage {
                 to_pid,
             } => OwnedTerm::Tuple(vec![
                 OwnedTerm::Integer(ControlMessageType::UnlinkId as i64),
-                OwnedTerm::Integer(*id as i64),
+                unlink_id_to_term(*id),
                 from_pid.clone(),
                 to_pid.clone(),
             ]),
@@ -659,7 +685,7 @@ impl ControlMessage {
                 to_pid,
             } => OwnedTerm::Tuple(vec![
                 OwnedTerm::Integer(ControlMessageType::UnlinkIdAck as i64),
-                OwnedTerm::Integer(*id as i64),
+                unlink_id_to_term(*id),
                 from_pid.clone(),
                 to_pid.clone(),
             ]),
@@ -973,7 +999,7 @@ impl ControlMessage {
                 to_pid,
             } => OwnedTerm::Tuple(vec![
                 OwnedTerm::Integer(ControlMessageType::UnlinkId as i64),
-                OwnedTerm::Integer(id as i64),
+                unlink_id_to_term(id),
                 from_pid,
                 to_pid,
             ]),
@@ -984,7 +1010,7 @@ impl ControlMessage {
                 to_pid,
             } => OwnedTerm::Tuple(vec![
                 OwnedTerm::Integer(ControlMessageType::UnlinkIdAck as i64),
-                OwnedTerm::Integer(id as i64),
+                unlink_id_to_term(id),
                 from_pid,
                 to_pid,
             ]),
